@@ -71,5 +71,17 @@ using namespace IMATH_NAMESPACE;
     WRAP T w_cofrow4##S (const Matrix44<T>* a, int r) { T s = 0; for (int c = 0; c < 4; c++) s += (((r + c) & 1) ? -1 : 1) * (*a)[r][c] * a->minorOf (r, c); return s; } \
     WRAP T w_cofcol4##S (const Matrix44<T>* a, int c) { T s = 0; for (int r = 0; r < 4; r++) s += (((r + c) & 1) ? -1 : 1) * (*a)[r][c] * a->minorOf (r, c); return s; }
 
+// aliased operands: the right-hand side IS the object being assigned to
+#define SELF(T, S)                                                                                               \
+    WRAP void w_mmulself2##S (const Matrix22<T>* a, Matrix22<T>* r) { Matrix22<T> t = *a; t *= t; *r = t; }      \
+    WRAP void w_mmulself3##S (const Matrix33<T>* a, Matrix33<T>* r) { Matrix33<T> t = *a; t *= t; *r = t; }      \
+    WRAP void w_mmulself4##S (const Matrix44<T>* a, Matrix44<T>* r) { Matrix44<T> t = *a; t *= t; *r = t; }      \
+    WRAP void w_mmulstatself4##S (const Matrix44<T>* a, Matrix44<T>* r) { Matrix44<T> t = *a; Matrix44<T>::multiply (t, t, t); *r = t; } \
+    WRAP void w_qmulself##S (const Quat<T>* a, Quat<T>* r) { Quat<T> t = *a; t *= t; *r = t; }                   \
+    WRAP void w_cross3self##S (const Vec3<T>* a, Vec3<T>* r) { Vec3<T> t = *a; t %= t; *r = t; }                 \
+    WRAP void w_v3m33self_row##S (const Matrix33<T>* m, Vec3<T>* r) { Matrix33<T> t = *m; Vec3<T>* row = reinterpret_cast<Vec3<T>*> (t[1]); *row *= t; *r = *row; } \
+    WRAP void w_v4m44self_row##S (const Matrix44<T>* m, Vec4<T>* r) { Matrix44<T> t = *m; Vec4<T>* row = reinterpret_cast<Vec4<T>*> (t[1]); *row *= t; *r = *row; }
 INST (float, f)
 INST (double, d)
+SELF (float, f)
+SELF (double, d)
